@@ -255,9 +255,19 @@ func (o *authOracle) c10(e *Env, si *StepInfo) {
 			gw := st.Proposal.Provider
 			ok := signer == gw || inList(nodeTxAddrs(prev, gw), signer)
 			if !ok {
-				// an account bound to the owner DID
-				if prev.Did.Dids["cosmos:"+ChainID+":"+signer] == co.Owner {
-					ok = true
+				// an account bound to the owner DID: bound according to the binding record and still in
+				// the DID's own account list (an unbound account is in neither)
+				acc := "cosmos:" + ChainID + ":" + signer
+				if prev.Did.Dids[acc] == co.Owner {
+					if strings.HasPrefix(co.Owner, "did:sid:") {
+						for _, ad := range prev.Did.AccountLists[co.Owner] {
+							if prev.Did.AccountIds[ad] == acc {
+								ok = true
+							}
+						}
+					} else {
+						ok = true
+					}
 				}
 			}
 			if !ok {
@@ -330,8 +340,9 @@ func (o *authOracle) c19(e *Env, si *StepInfo) {
 					}
 				}
 				_, ok3 := prev.Model.Metas[f.DataId]
-				if !ok || !ok2 || !ok3 || !listed || sh.Sp != f.Provider || ord.DataId != f.DataId || int64(sh.CreatedAt+sh.Duration) <= si.Height {
-					o.once(e, "C19", "C19.valid", lab, "fault-recorded-for-invalid-target", k, fmt.Sprintf("fault recorded against %s for order %d data %s shard %d: shard exists %v, order exists %v, model exists %v, order lists shard %v", fmtAddr(f.Provider), f.OrderId, f.DataId, f.ShardId, ok, ok2, ok3, listed))
+				holds := ok && (sh.Status == ordertypes.ShardCompleted || sh.Status == ordertypes.ShardMigrating)
+				if !ok || !ok2 || !ok3 || !listed || !holds || sh.Sp != f.Provider || ord.DataId != f.DataId || int64(sh.CreatedAt+sh.Duration) <= si.Height {
+					o.once(e, "C19", "C19.valid", lab, "fault-recorded-for-invalid-target", k, fmt.Sprintf("fault recorded against %s for order %d data %s shard %d: shard exists %v, order exists %v, model exists %v, order lists shard %v, provider holds it (stored) %v", fmtAddr(f.Provider), f.OrderId, f.DataId, f.ShardId, ok, ok2, ok3, listed, holds))
 				}
 			}
 		}
